@@ -37,9 +37,11 @@ FUNCTIONS = ['OperatorDict.__getitem__/__call__/_call_binary (func vs numspace[f
              'Algebra.register', 'TapeRecorder.binary_operator/unary_operator']
 ASSUMPTIONS = ['sequential histories only; operand values symbolic, histories/patterns/routes enumerated',
                'two USER functions registered under the same Python name share a slot -- not demanded (same as rebinding a global)']
-BOUNDS = {'quick': 'perm-histories: 14 binary + 8 unary operators x key sets of <=3 blades (d=2, all orderings) and d=3 samples x 4 routes; mixed histories: 120 of length 3',
-          'thorough': 'key sets of <=4 blades, d=3 more samples; 1500 mixed histories of length <=4'}
+BOUNDS = {'quick': 'perm-histories: 14 binary + 8 unary operators x key sets of <=3 blades in all orderings (d=2), samples in d=3 and d=5,6 (two-digit keys), routes plain / wrapper (wraps, closure) / register / register(symbolic) / re-entrant wrapper; name classes over an ambiguous-spelling key pool (d=5); swapped-operand histories incl. d=7; operator sweeps (29 operators, two passes); flaky wrapper; 120 mixed histories of length <=3',
+          'thorough': 'the same families with 5-10x the samples; 8000 mixed histories of length <=5'}
 OUTSIDE = ['thread schedules / concurrent first calls', 'histories longer than the bound', 'same-name user functions']
+LABEL_MOVEMENT = True
+RULE = 'histories are enumerated/seeded deterministically; a case is non-trivial when it executed a history on symbolic operands and compared at least one result with a fresh algebra (on a correct tree most comparisons are between syntactically identical solver terms, the rest are z3 queries)'
 OPTS = {'rlimit': 200_000_000, 'canary_every': 10}
 EXPLANATION = __doc__
 
